@@ -1406,7 +1406,7 @@ class Irc(IrcCommandDispatcher, log.Firewalled):
         if method is not None:
             method(msg)
         elif self._numericErrorCommandRe.search(msg.command):
-            log.error('Unhandled error message from server: %r' % msg)
+            log.error('Unhandled error message from server: %r', msg)
 
         # Now update the IrcState object.
         try:
